@@ -77,8 +77,41 @@ def _copy(v):
     return list(v) if isinstance(v, list) else v
 
 
-def _attach(o, rec):
+class _Guard:
+    """Keeps a runaway propagation (e.g. a mutant without the re-entrancy lock on a
+    network with two partners: a call tree of branching 2 and depth recursion-limit/18)
+    from hanging the check: after CALL_BUDGET handler calls in one command the recursion
+    limit is clamped just above the current depth — every further nested propagation then
+    ends in the RecursionError CPython would raise anyway, only sooner.  Never triggers on
+    a terminating propagation (at most a few dozen calls per command)."""
+    CALL_BUDGET = 300
+
+    def __init__(self):
+        self.calls = 0
+        self.tripped = False
+        self.base = sys.getrecursionlimit()
+
+    def tick(self):
+        self.calls += 1
+        if self.calls > self.CALL_BUDGET:
+            self.tripped = True
+            d, f = 0, sys._getframe()
+            while f is not None:
+                d, f = d + 1, f.f_back
+            sys.setrecursionlimit(d + 12)
+
+    def reset(self):
+        self.calls = 0
+        if self.tripped:
+            sys.setrecursionlimit(self.base)
+
+    def done(self):
+        sys.setrecursionlimit(self.base)
+
+
+def _attach(o, rec, guard):
     def h(obj, name, old, new):
+        guard.tick()
         if name.endswith("_items"):
             rec[name].append((new.index, list(new.removed), list(new.added)))
         else:
@@ -164,22 +197,24 @@ def run_impl(case):
     _, specs, cmds = L.parse_case(case)
     objs = [L.make_class(s)() for s in specs]
     recs = [{k: [] for k in L.NAMES + tuple(n + "_items" for n in L.LISTS)} for _ in objs]
+    guard = _Guard()
     for i in range(len(objs)):
-        _attach(objs[i], recs[i])
+        _attach(objs[i], recs[i], guard)
     swallowed = []
     push_exception_handler(lambda obj, name, old, new: swallowed.append(S.exc_name(sys.exc_info()[1])),
                            reraise_exceptions=False, main=True)
     was_enabled = gc.isenabled()
     gc.disable()
     try:
-        return _run(specs, cmds, objs, recs, swallowed)
+        return _run(specs, cmds, objs, recs, swallowed, guard)
     finally:
+        guard.done()
         pop_exception_handler()
         if was_enabled:
             gc.enable()
 
 
-def _run(specs, cmds, objs, recs, swallowed):
+def _run(specs, cmds, objs, recs, swallowed, guard):
     hits, tags, outs = [], set(), []
     D = set()          # links the history has definitely established (oracle's own book-keeping)
     U = set()          # registrations left behind by a sync_trait call that raised (unspecified by the property)
@@ -193,6 +228,8 @@ def _run(specs, cmds, objs, recs, swallowed):
             for v in r.values():
                 del v[:]
         del swallowed[:]
+        guard.reset()
+        guard.tripped = False
         alive = [i for i, o in enumerate(objs) if o is not None]
         if k != "ki" and (cmd[1] not in alive or (k in ("li", "un") and cmd[3] not in alive)):
             outs.append("skip")
@@ -253,7 +290,7 @@ def _run(specs, cmds, objs, recs, swallowed):
         changed = [p for p in allpairs if p[0] in before and val(before, p) != val(after, p)]
         called = [p for p in allpairs if calls(p) or (p[1] in L.LISTS and calls(p, True))]
         runaway = [p for p in allpairs if len(calls(p)) > 8 or (p[1] in L.LISTS and len(calls(p, True)) > 8)]
-        if runaway:
+        if runaway or guard.tripped:
             hits.append(_hit("sync-runaway-propagation", "more than 8 handler calls on one trait for one command",
                              pairs=runaway, command=cmd))
         if k in ("un", "ki"):
